@@ -245,6 +245,7 @@ func (x *Exec) modOfContract(m *ModSet, ci *calleeInfo, c *ssa.CallCommon) {
 		}
 		for _, f := range fams {
 			m.Fams[f.Name] = f
+			m.Untargeted[f.Name] = true
 		}
 	}
 }
